@@ -10,9 +10,37 @@ ASSUMPTIONS = P.ASSUMPTIONS + [
 ]
 
 
+def rev_cases(rng, tier):
+    """byte order (coq/MpOrder.v, T_C06_big_endian_*): Memory::NativeToBigEndian + the object representation, per width:
+    single bytes in every position, all-ones below every bit, every 16-bit value in thorough, random values"""
+    out = []
+    for bits in (16, 32, 64):
+        vals = set([0, 1, (1 << bits) - 1, 0x0102030405060708 & ((1 << bits) - 1), 0x8000000000000001 & ((1 << bits) - 1) | (1 << (bits - 1))])
+        for k in range(bits):
+            vals.add(1 << k); vals.add((1 << k) - 1); vals.add(((1 << bits) - 1) ^ (1 << k))
+        for k in range(bits // 8):
+            vals.add(0xFF << (8 * k)); vals.add(0xA5 << (8 * k))
+        for _ in range(2000 if tier == "thorough" else 300):
+            vals.add(rng.getrandbits(bits))
+        if bits == 16 and tier == "thorough":
+            vals.update(range(1 << 16))
+        out += ["rev %d %x" % (bits, v) for v in sorted(vals)]
+    return out
+
+
+def judge_rev(line, out):
+    t = line.split(" ")
+    k = int(t[1]) // 8
+    exp = int(t[2], 16).to_bytes(k, "big").hex()
+    if out == exp:
+        return "HOLD", "big-endian bytes"
+    return "FAIL", "NativeToBigEndian + raw copy gives %s, big-endian is %s%s" % (out, exp, " (BigEndianToNative does not invert it)" if out.endswith("!") else "")
+
+
 def run(ctx, vlib):
     impl, model = M.drivers(vlib)
     cases = [c for c in U.load_corpus("C06") if not c.startswith("sv ")] + P.writer_cases(ctx["rng"], ctx["tier"])
+    cases += rev_cases(ctx["rng"], ctx["tier"])
     oi = vlib.run_driver(impl, cases)
     om = vlib.run_driver(model, cases)
     # typed level: value trees saved through the public API (root / array / object / binary write scopes)
@@ -23,10 +51,10 @@ def run(ctx, vlib):
     om += vlib.run_driver(model, tcases)
     cases = cases + tcases
     jt = P.judge_tree(expect)
-    judge = lambda line, out: jt(line, out) if line.startswith("sv ") else P.judge_writer(line, out)
+    judge = lambda line, out: jt(line, out) if line.startswith("sv ") else judge_rev(line, out) if line.startswith("rev ") else P.judge_writer(line, out)
     return P.assess("C06", vlib, cases, oi, om, judge,
                     nontrivial=lambda line, out: len(out) > 2,
-                    rule="every uint8/int8 value (and every 16-bit value in thorough) through both writers, all format thresholds 2^5..2^64 +-2 for every wider type, length thresholds 0/15/16/31/32/255/256/65535/65536/2^32 (+-1) for str/bin/array/map, random float/double bit patterns incl. NaN/Inf/subnormal, timestamps at 0, +-1, 2^32, 2^34 +-1, int64 limits; string writer and stream writer; plus random nested value trees (every C++ integer type, floats, strings, byte containers, sequences, classes with string keys, maps with integer keys, 0/1/15/16/17 entries per level) saved through SaveObject<MsgPackArchive> to memory and stream; non-trivial = distinct case whose encoding is longer than one byte")
+                    rule="byte order: NativeToBigEndian + object representation for 16/32/64-bit values (every bit / byte position, random; every 16-bit value in thorough) against the extracted rev16/rev32/rev64 and big-endian bytes; every uint8/int8 value (and every 16-bit value in thorough) through both writers, all format thresholds 2^5..2^64 +-2 for every wider type, length thresholds 0/15/16/31/32/255/256/65535/65536/2^32 (+-1) for str/bin/array/map, random float/double bit patterns incl. NaN/Inf/subnormal, timestamps at 0, +-1, 2^32, 2^34 +-1, int64 limits; string writer and stream writer; plus random nested value trees (every C++ integer type, floats, strings, byte containers, sequences, classes with string keys, maps with integer keys, 0/1/15/16/17 entries per level) saved through SaveObject<MsgPackArchive> to memory and stream; non-trivial = distinct case whose encoding is longer than one byte")
 
 
 def replay(rp, vlib):
